@@ -2208,6 +2208,414 @@ fn wire_domain(args: &Args) {
         "accepted_commitments": accepted_commitments, "monitor_failures": monitor_failures}));
 }
 
+// ------------------------------------------------------------------ signed: what the signature is actually for
+
+/// adjacent duplicates (same value, payment hash and expiry) removed from a sorted list
+fn dedup_triples(hs: &[(u64, u8, u32)]) -> Vec<(u64, u8, u32)> {
+    let mut v = hs.to_vec();
+    v.sort();
+    v.dedup();
+    v
+}
+
+/// Phase-2 signing with HTLCs, including several HTLCs that agree in amount, payment hash and
+/// expiry on one side (two equal parts of a multi-part payment are two outputs).  Entry points:
+/// Channel::sign_counterparty_commitment_tx_phase2 directly, the same through the
+/// SignRemoteCommitmentTx2 handler, and Channel::sign_holder_commitment_tx_phase2_redundant.
+/// The returned signature is verified against the transaction the harness builds with LDK from
+/// the FULL lists of the request; the bounds are then evaluated on the commitment that was signed.
+fn signed_domain(args: &Args) {
+    use lightning_signer::bitcoin::hashes::Hash;
+    use lightning_signer::bitcoin::secp256k1::ecdsa::Signature;
+    use lightning_signer::bitcoin::secp256k1::{Message as SecpMessage, Secp256k1};
+    use lightning_signer::bitcoin::sighash::{EcdsaSighashType, SighashCache};
+    use lightning_signer::bitcoin::{Amount, BlockHash, Txid};
+    use lightning_signer::channel::ChannelBase;
+    use lightning_signer::lightning::ln::chan_utils::{
+        make_funding_redeemscript, CommitmentTransaction, HTLCOutputInCommitment, TxCreationKeys,
+    };
+    use vls_protocol::model::{self, Basepoints, Htlc, PubKey};
+    use vls_protocol::msgs::{self, Message, SerBolt};
+    use vls_protocol::serde_bolt::{Array, Octets};
+    use vls_protocol_signer::approver::PositiveApprover;
+    use vls_protocol_signer::handler::{Handler, InitHandler, RootHandler};
+    let mut rng = Rng::new(args.seed ^ 0x51931ed);
+    let release = !overflow_checks();
+    let secp = Secp256k1::new();
+    let mut dist: std::collections::BTreeMap<String, u64> = Default::default();
+    let (mut monitor_failures, mut signed_full, mut signed_other, mut with_dups, mut dup_signed) = (0u64, 0u64, 0u64, 0u64, 0u64);
+    for id in 0..args.n {
+        let entry = (id % 3) as u8; // 0 direct phase 2, 1 SignRemoteCommitmentTx2, 2 holder phase-2 redundant
+        let ctype = *rng.pick(&[1u8, 1, 3]);
+        let mode = *rng.pick(&["valid", "valid", "fee-low", "fee-low", "inflight", "count", "fee-high"]);
+        let cv = 10_000_000u64;
+        let push_sat = 2_000_000u64;
+        let feerate = *rng.pick(&[253u32, 1000]);
+        let s = Setup { is_outbound: true, channel_value_sat: cv, push_value_msat: push_sat * 1000, holder_delay: 6, cp_delay: 7, ctype, shutdown: 0 };
+        // ---- HTLC lists (value, hash id, expiry); `offered`/`received` in the sense of the commitment's broadcaster
+        let lim_o = htlc_limit(&s, &Info { cp_broadcaster: true, to_countersigner: 0, to_broadcaster: 0, offered: vec![], received: vec![], feerate }, 663) as u64;
+        let lim_r = htlc_limit(&s, &Info { cp_broadcaster: true, to_countersigner: 0, to_broadcaster: 0, offered: vec![], received: vec![], feerate }, 703) as u64;
+        let dup_side = rng.below(3); // 0 offered, 1 received, 2 both
+        let dup_n = *rng.pick(&[2usize, 2, 3]);
+        let no_dups = rng.chance(1, 6);
+        let mut offered: Vec<(u64, u8, u32)> = vec![];
+        let mut received: Vec<(u64, u8, u32)> = vec![];
+        for k in 0..rng.below(2) {
+            offered.push((lim_o + 1000 + 100 * k, 10 + k as u8, 500 + k as u32));
+        }
+        for k in 0..rng.below(2) {
+            received.push((lim_r + 2000 + 100 * k, 20 + k as u8, 600 + k as u32));
+        }
+        let dv = *rng.pick(&[0u64, 1, 500, 3000, 9000]);
+        if !no_dups {
+            if dup_side == 0 || dup_side == 2 {
+                for _ in 0..dup_n {
+                    offered.push((lim_o + dv, 1, 1000));
+                }
+            }
+            if dup_side == 1 || dup_side == 2 {
+                for _ in 0..dup_n {
+                    received.push((lim_r + dv, 2, 1000));
+                }
+            }
+        } else if offered.is_empty() && received.is_empty() {
+            offered.push((lim_o + dv, 1, 1000));
+        }
+        offered.sort();
+        received.sort();
+        let has_dups = dedup_triples(&offered).len() != offered.len() || dedup_triples(&received).len() != received.len();
+        if has_dups {
+            with_dups += 1;
+        }
+        let count = offered.len() + received.len();
+        let hsum: u64 = offered.iter().chain(received.iter()).map(|h| h.0).sum();
+        let d_count = dedup_triples(&offered).len() + dedup_triples(&received).len();
+        let d_sum: u64 = dedup_triples(&offered).iter().chain(dedup_triples(&received).iter()).map(|h| h.0).sum();
+        // ---- policy: limits that the full lists meet or miss by one, and that a list without the
+        // repeated entries would meet
+        let mut pol = Pol {
+            min_delay: 4,
+            max_delay: 2016,
+            max_channel_size_sat: 1_000_000_001,
+            max_htlcs: 1000,
+            max_htlc_value_sat: 16_777_216,
+            use_chain_state: false,
+            min_feerate: 253,
+            max_feerate: 25_000,
+            rules: vec![],
+        };
+        let w = weight(ctype, count);
+        let (flo, fhi) = fee_window(pol.min_feerate, pol.max_feerate, w);
+        let fee: u128 = match mode {
+            "fee-low" => *rng.pick(&[0u128, 10, flo.saturating_sub(1)]),
+            "fee-high" => fhi + 1,
+            _ => *rng.pick(&[flo, flo + 1, (flo + fhi) / 2]),
+        };
+        match mode {
+            "inflight" => pol.max_htlc_value_sat = if has_dups { *rng.pick(&[hsum - 1, d_sum, (hsum - 1).max(d_sum)]) } else { hsum - 1 },
+            "count" => pol.max_htlcs = if has_dups { *rng.pick(&[count - 1, d_count]) } else { count - 1 },
+            "valid" => {
+                if rng.chance(1, 2) {
+                    pol.max_htlc_value_sat = hsum;
+                    pol.max_htlcs = count;
+                }
+            }
+            _ => {}
+        }
+        // who pays what: HTLCs the counterparty offers come out of its balance, ours out of ours
+        let (cp_out, our_out): (u64, u64) = if entry == 2 {
+            // holder commitment: offered = ours
+            (received.iter().map(|h| h.0).sum(), offered.iter().map(|h| h.0).sum())
+        } else {
+            (offered.iter().map(|h| h.0).sum(), received.iter().map(|h| h.0).sum())
+        };
+        let to_cp = push_sat - cp_out.min(push_sat);
+        let to_holder = clamp64((cv as u128).saturating_sub(push_sat as u128 + our_out as u128 + fee));
+
+        // ---- node, channel through the wire, commitment 0
+        let mut seed = [0u8; 32];
+        seed[0] = (id % 251) as u8;
+        seed[1] = 0x51;
+        let world = World::new(real_policy(&pol), seed, KeyDerivationStyle::Native);
+        let node = world.new_node();
+        let mut init = InitHandler::new(0, node.clone(), Arc::new(PositiveApprover()), 6);
+        init.handle(Message::HsmdInit(msgs::HsmdInit {
+            key_version: model::Bip32KeyVersion { pubkey_version: 0, privkey_version: 0 },
+            chain_params: BlockHash::all_zeros(),
+            encryption_key: None,
+            dev_privkey: None,
+            dev_bip32_seed: None,
+            dev_channel_secrets: None,
+            dev_channel_secrets_shaseed: None,
+            hsm_wire_min_version: 2,
+            hsm_wire_max_version: 6,
+        }))
+        .expect("init");
+        let root: RootHandler = init.into();
+        let peer = [2u8; 33];
+        let dbid = 1 + id as u64;
+        root.handle(msgs::from_vec(msgs::NewChannel { peer_id: PubKey(peer), dbid }.as_vec()).unwrap()).expect("NewChannel");
+        let handler = root.for_new_client(1, PubKey(peer), dbid);
+        let channel_id = node.get_channels().keys().next().expect("one channel").clone();
+        let pk = |i: u8| PubKey(make_test_pubkey(i).serialize());
+        let bits: Vec<usize> = if ctype == 3 { vec![12, 22] } else { vec![12] };
+        let mut txid_bytes = [7u8; 32];
+        txid_bytes[0] = id as u8;
+        let setup_msg = msgs::SetupChannel {
+            is_outbound: true,
+            channel_value: cv,
+            push_value: push_sat * 1000,
+            funding_txid: Txid::from_byte_array(txid_bytes),
+            funding_txout: 0,
+            to_self_delay: 6,
+            local_shutdown_script: Octets(vec![]),
+            local_shutdown_wallet_index: None,
+            remote_basepoints: Basepoints { revocation: pk(100), payment: pk(101), htlc: pk(103), delayed_payment: pk(102) },
+            remote_funding_pubkey: pk(104),
+            remote_to_self_delay: 7,
+            remote_shutdown_script: Octets(vec![]),
+            channel_type: Octets(channel_type_bytes(&bits, 0)),
+        };
+        handler.handle(msgs::from_vec(setup_msg.as_vec()).unwrap()).expect("SetupChannel");
+        let point = make_test_pubkey(10);
+        let w0 = weight(ctype, 0);
+        let (flo0, fhi0) = fee_window(pol.min_feerate, pol.max_feerate, w0);
+        let fee0 = (flo0 + fhi0) / 2;
+        let hash_of_id = |h: u8| {
+            let mut b = [0u8; 32];
+            b[0] = h;
+            PaymentHash(b)
+        };
+        let mk = |hs: &[(u64, u8, u32)]| -> Vec<HTLCInfo2> {
+            hs.iter().map(|(v, h, e)| HTLCInfo2 { value_sat: *v, payment_hash: hash_of_id(*h), cltv_expiry: *e }).collect()
+        };
+        let n = 1u64;
+        let (est, what): (Est, &str);
+        if entry == 2 {
+            node.with_channel(&channel_id, |chan| {
+                chan.enforcement_state.set_next_holder_commit_num_for_testing(1);
+                Ok(())
+            })
+            .expect("prepare holder");
+            est = Est { next_holder: 1, next_cp_commit: 0, next_cp_revoke: 0, closed: false, cp_point: 0, cp_info_same: false, holder_info: 0 };
+            what = "Channel::sign_holder_commitment_tx_phase2_redundant";
+        } else {
+            node.with_channel(&channel_id, |chan| {
+                chan.sign_counterparty_commitment_tx_phase2(&point, 0, feerate, clamp64(cv as u128 - push_sat as u128 - fee0), push_sat, vec![], vec![])
+            })
+            .expect("commitment 0");
+            // outgoing HTLCs of the next commitment are keysends approved beforehand (per hash, total amount)
+            let mut per_hash: std::collections::BTreeMap<u8, u64> = Default::default();
+            for (v, h, _) in received.iter() {
+                *per_hash.entry(*h).or_insert(0) += *v;
+            }
+            for (h, total) in per_hash {
+                node.add_keysend(make_test_pubkey(50), hash_of_id(h), total * 1000).expect("keysend");
+            }
+            est = Est { next_holder: 0, next_cp_commit: 1, next_cp_revoke: 0, closed: false, cp_point: 1, cp_info_same: false, holder_info: 0 };
+            what = if entry == 0 { "Channel::sign_counterparty_commitment_tx_phase2" } else { "SignRemoteCommitmentTx2 (ChannelHandler)" };
+        }
+        // ---- the request
+        let r: std::thread::Result<Result<Signature, String>> = catch_unwind(AssertUnwindSafe(|| match entry {
+            0 => node
+                .with_channel(&channel_id, |chan| {
+                    chan.sign_counterparty_commitment_tx_phase2(&point, n, feerate, to_holder, to_cp, mk(&offered), mk(&received))
+                })
+                .map(|(sig, _)| sig)
+                .map_err(|e| format!("{:?}: {}", e.code(), e.message())),
+            1 => {
+                // wire sides: LOCAL = offered by us = `received` of the counterparty's commitment
+                let mut hs = vec![];
+                for (v, h, e) in offered.iter() {
+                    hs.push(Htlc { side: Htlc::REMOTE, amount: v * 1000, payment_hash: model::Sha256(hash_of_id(*h).0), ctlv_expiry: *e });
+                }
+                for (v, h, e) in received.iter() {
+                    hs.push(Htlc { side: Htlc::LOCAL, amount: v * 1000, payment_hash: model::Sha256(hash_of_id(*h).0), ctlv_expiry: *e });
+                }
+                let m = msgs::SignRemoteCommitmentTx2 {
+                    remote_per_commitment_point: PubKey(point.serialize()),
+                    commitment_number: n,
+                    feerate,
+                    to_local_value_sat: to_holder,
+                    to_remote_value_sat: to_cp,
+                    htlcs: Array(hs),
+                };
+                match handler.handle(msgs::from_vec(m.as_vec()).expect("wire")) {
+                    Err(e) => Err(format!("{:?}", e).chars().take(240).collect()),
+                    Ok(reply) => match msgs::from_vec(reply.as_vec()).expect("reply") {
+                        Message::SignCommitmentTxWithHtlcsReply(rep) =>
+                            Ok(Signature::from_compact(&rep.signature.signature.0).expect("sig")),
+                        other => Err(format!("unexpected reply {:?}", other)),
+                    },
+                }
+            }
+            _ => node
+                .with_channel(&channel_id, |chan| {
+                    chan.sign_holder_commitment_tx_phase2_redundant(n, feerate, to_holder, to_cp, mk(&offered), mk(&received))
+                })
+                .map_err(|e| format!("{:?}: {}", e.code(), e.message())),
+        }));
+        // ---- which commitment is the signature for?
+        let tx_for = |offs: &[(u64, u8, u32)], recs: &[(u64, u8, u32)]| -> Option<lightning_signer::bitcoin::Transaction> {
+            node.with_channel(&channel_id, |chan| {
+                let holder = chan.keys.pubkeys().clone();
+                let cp = chan.setup.counterparty_points.clone();
+                let params = chan.make_channel_parameters();
+                let mut hs: Vec<(HTLCOutputInCommitment, ())> = vec![];
+                for (offered_flag, list) in [(true, offs), (false, recs)] {
+                    for (v, h, e) in list.iter() {
+                        hs.push((
+                            HTLCOutputInCommitment {
+                                offered: offered_flag,
+                                amount_msat: v * 1000,
+                                cltv_expiry: *e,
+                                payment_hash: hash_of_id(*h),
+                                transaction_output_index: None,
+                            },
+                            (),
+                        ));
+                    }
+                }
+                let ctx = if entry == 2 {
+                    let pcp = chan.get_per_commitment_point(n)?;
+                    let keys = TxCreationKeys::derive_new(
+                        &secp,
+                        &pcp,
+                        &holder.delayed_payment_basepoint,
+                        &holder.htlc_basepoint,
+                        &cp.revocation_basepoint,
+                        &cp.htlc_basepoint,
+                    );
+                    let build_feerate = if chan.setup.is_zero_fee_htlc() { 0 } else { feerate };
+                    let mut c = CommitmentTransaction::new_with_auxiliary_htlc_data(
+                        INITIAL_COMMITMENT_NUMBER - n,
+                        to_holder,
+                        to_cp,
+                        holder.funding_pubkey,
+                        cp.funding_pubkey,
+                        keys,
+                        build_feerate,
+                        &mut hs,
+                        &params.as_holder_broadcastable(),
+                    );
+                    if chan.setup.is_anchors() {
+                        c = c.with_non_zero_fee_anchors();
+                    }
+                    c
+                } else {
+                    let keys = TxCreationKeys::derive_new(
+                        &secp,
+                        &point,
+                        &cp.delayed_payment_basepoint,
+                        &cp.htlc_basepoint,
+                        &holder.revocation_basepoint,
+                        &holder.htlc_basepoint,
+                    );
+                    CommitmentTransaction::new_with_auxiliary_htlc_data(
+                        INITIAL_COMMITMENT_NUMBER - n,
+                        to_cp,
+                        to_holder,
+                        cp.funding_pubkey,
+                        holder.funding_pubkey,
+                        keys,
+                        feerate,
+                        &mut hs,
+                        &params.as_counterparty_broadcastable(),
+                    )
+                };
+                Ok(ctx.trust().built_transaction().transaction.clone())
+            })
+            .ok()
+        };
+        let verifies = |sig: &Signature, tx: &lightning_signer::bitcoin::Transaction| -> bool {
+            node.with_channel(&channel_id, |chan| {
+                let holder = chan.keys.pubkeys().clone();
+                let redeem = make_funding_redeemscript(&holder.funding_pubkey, &chan.setup.counterparty_points.funding_pubkey);
+                let sighash = SighashCache::new(tx)
+                    .p2wsh_signature_hash(0, &redeem, Amount::from_sat(cv), EcdsaSighashType::All)
+                    .expect("sighash");
+                let msg = SecpMessage::from_digest(sighash.to_byte_array());
+                Ok(secp.verify_ecdsa(&msg, sig, &holder.funding_pubkey).is_ok())
+            })
+            .unwrap_or(false)
+        };
+        let (obs, status): (u64, String) = match &r {
+            Err(_) => (1, "panic".to_string()),
+            Ok(Err(e)) => (2, e.clone()),
+            Ok(Ok(sig)) => {
+                let full = tx_for(&offered, &received);
+                let ded = tx_for(&dedup_triples(&offered), &dedup_triples(&received));
+                if full.as_ref().map(|t| verifies(sig, t)).unwrap_or(false) {
+                    (0, "signature is for the commitment with the full HTLC lists".to_string())
+                } else if ded.as_ref().map(|t| verifies(sig, t)).unwrap_or(false) {
+                    (3, "signature is for the commitment WITHOUT the repeated HTLC entries".to_string())
+                } else {
+                    (4, "signature matches neither reconstruction".to_string())
+                }
+            }
+        };
+        *dist.entry(format!("{}:{}:{}", ["direct", "handler", "holder-redundant"][entry as usize], mode, obs)).or_insert(0) += 1;
+        // ---- the property on the commitment that was SIGNED
+        let proj = |hs: &[(u64, u8, u32)]| hs.iter().map(|h| (h.0, h.2)).collect::<Vec<_>>();
+        let info = if entry == 2 {
+            Info { cp_broadcaster: false, to_countersigner: to_cp, to_broadcaster: to_holder, offered: proj(&offered), received: proj(&received), feerate }
+        } else {
+            Info { cp_broadcaster: true, to_countersigner: to_holder, to_broadcaster: to_cp, offered: proj(&offered), received: proj(&received), feerate }
+        };
+        let case = Case { pol: pol.clone(), entry: if entry == 2 { 1 } else { 0 }, est: est.clone(), setup: s.clone(), cs: Chain { current_height: 0, funding_depth: 0, closing_depth: 0 }, n, info: info.clone() };
+        let mut viols: Vec<String> = vec![];
+        match obs {
+            0 => {
+                signed_full += 1;
+                if has_dups {
+                    dup_signed += 1;
+                }
+                let (rv, _) = reference_violations(&case, release);
+                for m in not_downgraded(&pol.rules, rv) {
+                    viols.push(format!("{} signed commitment {} (signature verified against the transaction with all {} HTLCs): {}", what, n, count, m));
+                }
+            }
+            3 | 4 => {
+                signed_other += 1;
+                viols.push(format!("{}: {}", what, status));
+            }
+            _ => {}
+        }
+        if !viols.is_empty() {
+            monitor_failures += 1;
+        }
+        let coq = format!(
+            "(({}, {}, {}), ({}, {}, {}, {}, {}, {}), {})",
+            profile_name(),
+            coq_rules(&pol.rules),
+            coq_pol(&pol),
+            if entry == 2 { 1 } else { 0 },
+            coq_est(&est),
+            coq_setup(&s),
+            coq_chain(&case.cs),
+            n,
+            coq_info(&info),
+            obs
+        );
+        emit(
+            "CASE",
+            json!({"id": id, "kind": "signed", "entry": what, "mode": mode,
+                   "policy": {"max_htlcs": pol.max_htlcs, "max_htlc_value_sat": pol.max_htlc_value_sat,
+                              "min_feerate_per_kw": pol.min_feerate, "max_feerate_per_kw": pol.max_feerate},
+                   "channel": {"channel_value_sat": cv, "push_value_msat": s.push_value_msat, "commitment_type": ctype_name(ctype)},
+                   "request": {"commitment_number": n, "feerate_per_kw": feerate, "to_holder_value_sat": to_holder,
+                               "to_counterparty_value_sat": to_cp,
+                               "offered_htlcs(value_sat,hash_id,cltv)": offered, "received_htlcs(value_sat,hash_id,cltv)": received,
+                               "implied_fee_sat": fee.to_string(), "in_flight_sat": hsum, "htlc_count": count,
+                               "has_identical_htlcs": has_dups},
+                   "observed": obs, "status": status, "monitor_violation": viols, "coq": coq}),
+        );
+    }
+    emit("STATS", json!({"kind": "signed", "profile": profile_name(), "observed_distribution(entry:mode:obs)": dist,
+        "requests_with_identical_htlcs": with_dups, "signed_and_verified_against_full_lists": signed_full,
+        "signed_with_identical_htlcs": dup_signed, "signed_something_else": signed_other, "monitor_failures": monitor_failures}));
+}
+
 fn main() {
     std::panic::set_hook(Box::new(|_| {}));
     let argv: Vec<String> = std::env::args().collect();
@@ -2218,6 +2626,7 @@ fn main() {
         "chan" => chan_domain(&args),
         "life" => life_domain(&args),
         "wire" => wire_domain(&args),
+        "signed" => signed_domain(&args),
         other => {
             eprintln!("unknown sub-domain {}", other);
             std::process::exit(2)
